@@ -44,7 +44,7 @@ def patches(case):
 # ----------------------------------------------------------------------------- alphabet
 
 MUTATORS = ["adapt", "baseline", "bounds", "bg_adapt", "bg_adapt_add", "sys_adapt", "sys_adapt_add", "system", "targets", "targets_now", "fit_registered"]
-QUERIES = ["q_capture", "q_sysrel", "q_inhull", "q_inhull_norm", "q_fit", "q_l1scale"]
+QUERIES = ["q_capture", "q_sysrel", "q_inhull", "q_inhull_norm", "q_fit", "q_l1scale", "q_l1scale_abs"]
 
 
 def _cap(F, grid, spectrum):
@@ -181,6 +181,11 @@ def run_query(M, est, ref, step, idx, goals, tag):
         B = fresh("qB", (2, NF), sample=lambda r, s: r.uniform(0.5, 3.0, size=s)); snap = _copy(B)
         M.assume(symnp._reduce(symnp.smax, np.asarray(B - np.asarray(ref.K) * np.asarray(ref.base), dtype=object), None) != 0) if M.symbolic else None
         est.gamut_l1_scaling(B); untouched("targets", B, snap)
+    elif step == "q_l1scale_abs":
+        # absolute-capture variant (works on the registered A itself rather than on a K-scaled copy)
+        B = fresh("qB", (2, NF), sample=lambda r, s: r.uniform(0.5, 3.0, size=s)); snap = _copy(B)
+        M.assume(symnp._reduce(symnp.smax, np.asarray(B, dtype=object), None) != 0) if M.symbolic else None
+        est.gamut_l1_scaling(B, relative=False); untouched("targets", B, snap)
     elif step == "q_distscale":
         # only the "caller array is not modified" clause is checked for this query (its values are C12's subject); one all-zero row, one arbitrary row
         Bq = fresh("qB", (1, NF), sample=lambda r, s: r.uniform(0.5, 3.0, size=s))
@@ -370,6 +375,8 @@ def query_purity_case(M, query):
         stubs.qhull_reset(); est.in_hull(Bq); est.in_hull(Bq, normalized=True)
     elif query == "l1scale":
         est.gamut_l1_scaling(Bq)
+    elif query == "l1scale_abs":
+        est.gamut_l1_scaling(Bq, relative=False)
     after = view()
     return {"in_hull() of the registered targets is unchanged by the query": _same(M, after, before),
             "the registered targets and weights are unchanged by the query": M.conj(_same(M, est.B, regB), _same(M, est.W, regW)),
@@ -379,7 +386,7 @@ def query_purity_case(M, query):
 def cases(tier, seed):
     C = []
     big = tier == "thorough"
-    for q in ("fit", "fit_poisson", "in_hull", "l1scale"):
+    for q in ("fit", "fit_poisson", "in_hull", "l1scale", "l1scale_abs"):
         C.append(dict(name=f"query purity w.r.t. registered targets: {q}", body="query_purity_case", kwargs=dict(query=q), opts=dict(timeout_ms=30000, n_validate=2, max_paths=64)))
     for z in (True, False):
         C.append(dict(name=f"purity of gamut_dist_scaling (zero row: {z})", body="distscale_purity_case", kwargs=dict(zero_row=z), opts=dict(timeout_ms=30000, n_validate=4, max_paths=2000, skip_sym=True, algebraic=True)))  # every branch of this function divides by symbolic chromaticity
@@ -393,7 +400,7 @@ def cases(tier, seed):
         hist = [(a,) for a in alpha] + list(itertools.product(red, repeat=2)) + [("bg_adapt_add", "sys_adapt"), ("sys_adapt", "bg_adapt_add")] + \
                [(q, m_) for q in QUERIES for m_ in ("adapt", "bg_adapt", "sys_adapt_add", "bounds", "system")] + \
                [(m_, q) for q in QUERIES for m_ in ("baseline", "sys_adapt", "targets")] + \
-               [("targets", "q_fit", "adapt"), ("targets", "q_inhull"), ("targets", "targets_now", "q_fit")]
+               [("targets", "q_fit", "adapt"), ("targets", "q_inhull"), ("targets", "targets_now", "q_fit"), ("bounds", "q_l1scale_abs"), ("bounds", "q_l1scale_abs", "q_sysrel")]
     if big:
         small = ["adapt", "bg_adapt_add", "sys_adapt", "system", "q_inhull_norm", "q_fit"]
         hist += list(itertools.product(small, repeat=3))
